@@ -11,21 +11,22 @@ from gv.model import dbutil, grammar as G
 
 ID = "C17"
 RULE = (
-    "Part 'set' (shards = feature source {parsed line, database look-up} x setter {Feature[k]=, attributes[k]=, update, setdefault}): "
-    "value (10 shapes incl. empty list, bare string, non-ASCII, reserved characters, 2-tuple, 1-tuple; thorough 17: plus astral-plane, "
-    "combining / direction-override, BOM, NUL, quote-backslash, U+2028/U+0085, JSON-looking) x existing/new key x always_return_list: "
-    "the underlying storage holds lists of strings for every key, the view and Feature[k] follow the switch, items() / values() / get() "
-    "/ iteration show the same view as [], and the printed line, astuple() and JSON form are identical under both switch settings and "
-    "equal the expected line. Part 'json' (shards = key count 1..3 x first value): every mapping over the value shapes (1110 / 5219 "
-    "mappings; keys non-ASCII or with a blank, or Python-meaningful names like self, __class__) x container {Attributes, dict}: "
-    "_jsonify/_unjsonify round trip is the identity and returns Attributes, a second decode is independent of edits to the first, and a "
-    "Feature built from the JSON text has the mapping. Part 'merge' (81 shards): all ordered pairs of 81 mappings x numeric_sort x "
-    "container {dict, Attributes, dict with bare-string scalars} x switch: merge_attributes equals a reference union and leaves its "
-    "arguments unchanged. Part 'eq' (24 shards): all ordered pairs of a 24-feature set: ==/!= agree with printed-line equality, equal "
-    "features hash alike and deduplicate in a set, also against the line re-parsed from its print (no id) and a copy carrying a "
-    "database key, and for a feature that was hashed and then edited into the other. Non-trivial = a scalar, single-item or non-ASCII "
-    "value is involved (set/json); both arguments share a key (merge); the two features differ in exactly one column/attribute/extra, "
-    "or are equal but distinct entries (eq). numeric_sort is only named when True (plain sorting is the documented default)."
+    "Part 'set' (shards = feature source {parsed line, database look-up, parsed line with an empty attribute column (new key only)} x "
+    "setter {Feature[k]=, attributes[k]=, update, setdefault}): value (10 shapes incl. empty list, bare string, non-ASCII, reserved "
+    "characters, 2-tuple, 1-tuple; thorough 17: plus astral-plane, combining / direction-override, BOM, NUL, quote-backslash, "
+    "U+2028/U+0085, JSON-looking) x existing/new key x always_return_list: the underlying storage holds lists of strings for every key, "
+    "the view and Feature[k] follow the switch, items() / values() / get() / iteration show the same view as [], and the printed line, "
+    "astuple() and JSON form are identical under both switch settings and equal the expected line. Part 'json' (shards = key count 1..3 "
+    "x first value): every mapping over the value shapes (1110 / 5219 mappings; keys non-ASCII or with a blank, or Python-meaningful "
+    "names like self, __class__) x container {Attributes, dict}: _jsonify/_unjsonify round trip is the identity and returns Attributes, "
+    "a second decode is independent of edits to the first, and a Feature built from the JSON text has the mapping. Part 'merge' (81 "
+    "shards): all ordered pairs of 81 mappings x numeric_sort x container {dict, Attributes, dict with bare-string scalars} x switch: "
+    "merge_attributes equals a reference union and leaves its arguments unchanged. Part 'eq' (24 shards): all ordered pairs of a "
+    "24-feature set: ==/!= agree with printed-line equality, equal features hash alike and deduplicate in a set, also against the line "
+    "re-parsed from its print (no id) and a copy carrying a database key, and for a feature that was hashed and then edited into the "
+    "other. Non-trivial = a scalar, single-item or non-ASCII value is involved (set/json); both arguments share a key (merge); the two "
+    "features differ in exactly one column/attribute/extra, or are equal but distinct entries (eq). numeric_sort is only named when "
+    "True (plain sorting is the documented default)."
 )
 ASSUMPTIONS = [
     "'sequence of strings' is checked on the underlying storage (Attributes._d) and on the JSON text",
